@@ -11,9 +11,11 @@ oracle     : the implementation's log replayed into the abstract DOM (DomSpec.ap
              variant of the model (all switches off): tree + quirks mode must agree; a difference is classified by
              the switches that explain it (`dev:<i>`)
 """
+import hashlib
 import json
 import os
 import subprocess
+import sys
 
 import treelib as TL
 from vcommon import ROOT
@@ -80,9 +82,10 @@ def probe_switches(ck, exe, model):
         verdicts = []
         for text, frag, o in ws:
             a = one(exe, TL.mk_case([text], frag=frag, **o))
-            on = TL.split_cov(one(model, with_mask(a, 0)))[0]
-            off = TL.split_cov(one(model, with_mask(a, 1 << i)))[0]
-            verdicts.append("present" if a == on else ("repaired" if a == off else "inconclusive"))
+            body = lambda x: x.partition(" ;; ")[2]
+            on = body(TL.split_cov(one(model, with_mask(a, 0)))[0])
+            off = body(TL.split_cov(one(model, with_mask(a, 1 << i)))[0])
+            verdicts.append("present" if body(a) == on else ("repaired" if body(a) == off else "inconclusive"))
         if all(v == "repaired" for v in verdicts):
             status[i] = "repaired"
             mask |= 1 << i
@@ -124,6 +127,63 @@ def shrink(ck, exe, model, case, still_bad, budget=300):
     return "|".join(f[:3] + [TL.T.enc(text)])
 
 
+GOLDEN = os.path.join(ROOT, "corpus", "c02_golden.txt")
+
+
+def h12(s):
+    return hashlib.sha256(s.encode("utf8", "surrogatepass")).hexdigest()[:12]
+
+
+def tree_only(t):
+    return t.rpartition(" | R ")[0]
+
+
+def make_golden(ck):
+    """(re)write corpus/c02_golden.txt from the CURRENT /repo: dispatch probes (every tag name of the tables as start and
+    end tag in every insertion mode) with the hash of the implementation's tree and of the WHATWG-variant model's tree.
+    Run by hand at a known-good state:  python3 lib/checks/c02.py make-golden"""
+    import treetables
+    treetables.regen(ck)
+    exe, model = TL.build(ck)
+    cases = TL.probe_cases()
+    impl = TL.run_impl(ck, exe, cases)
+    it = trees(ck, model, impl)
+    sp = [TL.split_cov(x)[0] for x in TL.run_model(ck, model, [with_mask(x, ALL_FIXED) for x in impl])]
+    st = trees(ck, model, sp)
+    with open(GOLDEN, "w") as f:
+        f.write("# golden dispatch probes: case <TAB> sha256[:12] of the implementation's DomSpec tree + quirks at the pinned "
+                "commit <TAB> same for the WHATWG variant of the model (all deviation switches off)\n")
+        for c, a, b in zip(cases, it, st):
+            f.write("%s\t%s\t%s\n" % (c, h12(tree_only(a)), h12(tree_only(b))))
+    return len(cases)
+
+
+def golden_oracle(ck, exe, model):
+    """behaviour on the golden probes must be the pinned behaviour or the WHATWG behaviour"""
+    if not os.path.exists(GOLDEN):
+        ck.notes.append("corpus/c02_golden.txt missing: golden dispatch probes skipped")
+        return 0, 0, 0
+    rows = [l.rstrip("\n").split("\t") for l in open(GOLDEN) if l.strip() and not l.startswith("#")]
+    cases = [r[0] for r in rows]
+    impl = TL.run_impl(ck, exe, cases)
+    it = trees(ck, model, impl)
+    changed = repaired = 0
+    for r, a, t in zip(rows, impl, it):
+        hh = h12(tree_only(t))
+        if hh == r[1]:
+            continue
+        if hh == r[2]:
+            repaired += 1
+            continue
+        changed += 1
+        if changed <= 3:
+            ck.violation("tree differs from the pinned behaviour and from the WHATWG variant on a dispatch probe "
+                         "(a tag moved between arms / tag sets?)",
+                         {"kind": "failing-input", "case": r[0], "described": TL.describe(r[0]), "impl_tree": tree_only(t)[:1500]},
+                         case_class="golden-probe")
+    return len(rows), changed, repaired
+
+
 def run(ck):
     corpus = os.path.join(ROOT, "corpus", "c02.txt")
     if ck.replay:
@@ -135,9 +195,13 @@ def run(ck):
         if os.path.exists(corpus):
             cases += [l.rstrip("\n") for l in open(corpus) if l.strip() and not l.startswith("#")]
         cases += TL.systematic_cases()
+        if os.path.exists(GOLDEN):
+            cases += [l.split("\t")[0] for l in open(GOLDEN) if l.strip() and not l.startswith("#")]
         cases += [TL.gen_case(ck.rng) for _ in range(n)]
     import treetables
-    treetables.regen(ck)          # the model's tables are definitionally the regenerated coq/Gen/Gen*.v
+    # the model's tables are definitionally the regenerated coq/Gen/Gen*.v; Inst/InstTreeTables.v compares them with
+    # the lists of the standard (a moved tag breaks a lemma there and is reported with the differing cells)
+    treetables.setup(ck)
     ck.coq_props()
     exe, model = TL.build(ck)
     impl = TL.run_impl(ck, exe, cases)
@@ -203,14 +267,14 @@ def run(ck):
     impl_trees = trees(ck, model, [impl[i] for i in ok_idx])
     spec_logs = [TL.split_cov(x)[0] for x in TL.run_model(ck, model, [with_mask(impl[i], ALL_FIXED) for i in ok_idx])]
     spec_trees = trees(ck, model, spec_logs)
+    n_golden, golden_changed, golden_repaired = golden_oracle(ck, exe, model) if not ck.replay else (0, 0, 0)
+    ck.cov["golden_probes"] = {"cases": n_golden, "changed": golden_changed, "now_whatwg": golden_repaired}
     dev_hist = {}
     oracle_fail = 0
     for i, ti, ts in zip(ok_idx, impl_trees, spec_trees):
         # the C02 statement is about the DOM and the quirks mode; TokenSinkResults (` | R ...`) belong to C19
         if ti.rpartition(" | R ")[0] == ts.rpartition(" | R ")[0]:
             continue
-        def tree_only(t):
-            return t.rpartition(" | R ")[0]
         expl = classify_trees(model, impl[i], tree_only(ti), present)
         cls = "dev:" + "+".join(map(str, expl)) if expl else "unexplained"
         dev_hist[cls] = dev_hist.get(cls, 0) + 1
@@ -262,3 +326,10 @@ def classify_trees(model, impl_line, impl_tree_wo_results, present):
     if tree_with(everything) == impl_tree_wo_results:
         return everything
     return None
+
+
+if __name__ == "__main__":
+    sys.path.insert(0, os.path.join(ROOT, "lib"))
+    import vcommon
+    if len(sys.argv) > 1 and sys.argv[1] == "make-golden":
+        print("golden probes written:", make_golden(vcommon.Check("C02", [])))
